@@ -34,7 +34,12 @@ let parse_kind s =
   | _ -> failwith ("kind " ^ s)
 
 let parse_ops s = List.filter (fun o -> o <> "") (String.split_on_char ';' s)
-let op_list o = parse_list (String.sub o 1 (String.length o - 1))
+(* r<form>2,3 / n<src>2,3 / a2,3 : the optional letter after the op names the ARGUMENT FORM (or source kind); the model
+   and the reference do not look at it — that the result is independent of it is part of what is checked *)
+let op_body o =
+  let at = if String.length o > 1 && not (o.[1] >= '0' && o.[1] <= '9') then 2 else 1 in
+  String.sub o at (String.length o - at)
+let op_list o = parse_list (op_body o)
 let op_write o =
   let e = String.index o '=' in
   (int_of_string (String.sub o 1 (e - 1)), zi (int_of_string (String.sub o (e + 1) (String.length o - e - 1))))
@@ -44,22 +49,26 @@ let nth_index shape k =
   let n = List.length l in
   if n = 0 then None else Some (List.nth l (k mod n))
 
-let record flag shape strides ostrides size n elems =
-  String.concat "|" [flag; show_list shape; show_list strides; show_list ostrides; size; n; String.concat "," elems]
+let record flag shape strides ostrides size n elems raw =
+  String.concat "|" [flag; show_list shape; show_list strides; show_list ostrides; size; n; String.concat "," elems; String.concat "," raw]
 
 (* ---- the model side: extracted ndarray_t model, cells are integers, fresh cells 0 ---- *)
 let m_dump flag (st : coq_Z state) =
   let size = (match st.st_kind.bk with BFixed n -> string_of_int (int_of_nat n) | _ -> string_of_z (product st.st_shape)) in
   record flag st.st_shape st.st_strides (snd st.st_off) size (string_of_int (List.length st.st_data))
     (List.map (fun i -> match get st i with Some v -> string_of_z v | None -> "oob") (lex_enum st.st_shape))
-let m_fill (st : coq_Z state) =
-  let (_, r) = List.fold_left (fun (c, s) i -> (c + 1, write s i (zi (100 + c)))) (0, st) (lex_enum st.st_shape) in r
-let m_run k l ops =
+    (List.map string_of_z st.st_data)
+let m_fill ?(base=100) (st : coq_Z state) =
+  let (_, r) = List.fold_left (fun (c, s) i -> (c + 1, write s i (zi (base + c)))) (0, st) (lex_enum st.st_shape) in r
+let m_run_state k l ops =
   let st = ref (init Z0 k l) in
   let out = ref [m_dump "-" !st] in
+  let step = ref 0 in
   List.iter (fun o ->
+    incr step;
     let flag = (match o.[0] with
-      | 'r' -> let (f, s) = resize Z0 !st (op_list o) in st := s; if f then "T" else "F"
+      | 'r' -> let (f, s) = resize Z0 !st (op_list o) in
+               st := (if f then m_fill ~base:(1000 * !step) s else s); if f then "T" else "F"
       | 'w' -> let (kk, v) = op_write o in
                (match nth_index !st.st_shape kk with Some i -> st := write !st i v | None -> ()); "-"
       | 'c' -> st := copy !st; "-"
@@ -68,23 +77,39 @@ let m_run k l ops =
                st := assign !st (m_fill o1); "-"
       | _ -> failwith "op") in
     out := m_dump flag !st :: !out) ops;
-  String.concat " ; " (List.rev !out)
+  (String.concat " ; " (List.rev !out), !st)
+let m_run k l ops = fst (m_run_state k l ops)
 
 (* ---- the spec side: abstract array (shape + partial index->value map) ---- *)
+(* buffer position of an index, written with Horner ranks only (row-major rank; for column-major the rank of the
+   reversed index in the reversed shape) — independent of strides / compute_offset *)
+let ref_cell l s idx =
+  int_of_z (match l with RowMajor -> horner Z0 idx s | ColMajor -> horner Z0 (List.rev idx) (List.rev s))
+let s_raw (st : coq_Z astate) =
+  let n = int_of_z (prod st.a_shape) in
+  let raw = Array.make (max n 0) "?" in
+  List.iter (fun i -> match a_get st i with
+    | Some v -> let p = ref_cell st.a_layout st.a_shape i in if p >= 0 && p < n then raw.(p) <- string_of_z v
+    | None -> ()) (lex_enum st.a_shape);
+  Array.to_list raw
 let s_dump flag (st : coq_Z astate) =
   let sts = spec_strides st.a_layout st.a_shape in
   let n = string_of_z (prod st.a_shape) in
   record flag st.a_shape sts sts n n
     (List.map (fun i -> match a_get st i with Some v -> string_of_z v | None -> "?") (lex_enum st.a_shape))
-let s_fill (st : coq_Z astate) =
-  let (_, r) = List.fold_left (fun (c, s) i -> (c + 1, a_write s i (zi (100 + c)))) (0, st) (lex_enum st.a_shape) in r
+    (s_raw st)
+let s_fill ?(base=100) (st : coq_Z astate) =
+  let (_, r) = List.fold_left (fun (c, s) i -> (c + 1, a_write s i (zi (base + c)))) (0, st) (lex_enum st.a_shape) in r
 let s_init k l = { a_kind = k; a_layout = l; a_shape = (init Z0 k l).st_shape; a_cells = [] }
-let s_run k l ops =
+let s_run_state k l ops =
   let st = ref (s_init k l) in
   let out = ref [s_dump "-" !st] in
+  let step = ref 0 in
   List.iter (fun o ->
+    incr step;
     let flag = (match o.[0] with
-      | 'r' -> let (f, s) = a_resize !st (op_list o) in st := s; if f then "T" else "F"
+      | 'r' -> let (f, s) = a_resize !st (op_list o) in
+               st := (if f then s_fill ~base:(1000 * !step) s else s); if f then "T" else "F"
       | 'w' -> let (kk, v) = op_write o in
                (match nth_index !st.a_shape kk with Some i -> st := a_write !st i v | None -> ()); "-"
       | 'c' -> "-"
@@ -93,7 +118,32 @@ let s_run k l ops =
                st := s_fill o1; "-"
       | _ -> failwith "op") in
     out := s_dump flag !st :: !out) ops;
-  String.concat " ; " (List.rev !out)
+  (String.concat " ; " (List.rev !out), !st)
+let s_run k l ops = fst (s_run_state k l ops)
+
+(* cast after a history: by C20_cast_preserves the observable (shape, values) does not depend on the target kind, the
+   model casts to the fully dynamic kind *)
+let show_cast shape elems = "ok " ^ show_list shape ^ " ;" ^ (if elems = [] then "" else " " ^ String.concat "," elems)
+(* ndarray_ls_* targets of a source without a compile-time shape get the default clip bound 6
+   (NMTOOLS_CAST_DEFAULT_CLIPPED_VALUE): an extent above it is outside the property's quantifier (extents 1..4) —
+   there the target's resize refuses, cast ignores the flag and copies into a (1,..,1) array (observation in notes/C20.md) *)
+let outside_clip tag const_shape shape =
+  String.length tag >= 10 && String.sub tag 0 10 = "ndarray_ls" && not const_shape
+  && List.exists (fun e -> Z.gtb e (zi 6)) shape
+let () =
+  register "histcast" (fun a -> match a with
+    | [kd; o; tg] ->
+        let (k, l) = parse_kind (getS kd) in
+        let ops = parse_ops (getS o) in
+        let (_, mst) = m_run_state k l ops and (_, sst) = s_run_state k l ops in
+        let m = (match cast Z0 (fun v -> v) mst { sk = SDynamic; bk = BDynamic } with
+          | None -> "refused"
+          | Some r -> show_cast r.st_shape (List.map (fun i -> match get r i with Some v -> string_of_z v | None -> "oob") (lex_enum r.st_shape))) in
+        let sp = show_cast sst.a_shape (List.map (fun i -> match a_get sst i with Some v -> string_of_z v | None -> "?") (lex_enum sst.a_shape)) in
+        let const_shape = (match k.sk with SConstant _ -> true | _ -> false) in
+        if outside_clip (getS tg) const_shape sst.a_shape then { model = m; spec = "unspecified"; dom = false }
+        else { model = m; spec = sp; dom = kind_wfb k }
+    | _ -> failwith "histcast")
 
 let () =
   register "hist" (fun a -> match a with
@@ -167,25 +217,30 @@ let () =
 
 (* ---------- legacy classes: fixed_ndarray / hybrid_ndarray / dynamic_ndarray ---------- *)
 type 'st mops = { m_init : unit -> 'st; m_shape : 'st -> coq_Z list; m_strides : 'st -> coq_Z list;
-                  m_count : 'st -> string; m_get : 'st -> coq_Z list -> coq_Z option;
+                  m_count : 'st -> string; m_raw : 'st -> string list option; m_get : 'st -> coq_Z list -> coq_Z option;
                   m_write : 'st -> coq_Z list -> coq_Z -> 'st; m_resize : 'st -> coq_Z list -> string * 'st }
 
-let lrecord flag shape strides count elems =
+let lrecord flag shape strides count elems raw =
   String.concat "|" [flag; show_list shape; show_list strides; count;
-                     (if shape = [] then "-" else String.concat "," elems)]
+                     (if shape = [] then "-" else String.concat "," elems);
+                     (match raw with None -> "-" | Some r -> String.concat "," r)]
 
-let legacy_run ?(none="oob") (m : 'st mops) ops =
+let legacy_run_state ?(none="oob") (m : 'st mops) ops =
   let dump flag st =
     lrecord flag (m.m_shape st) (m.m_strides st) (m.m_count st)
-      (List.map (fun i -> match m.m_get st i with Some v -> string_of_z v | None -> none) (lex_enum (m.m_shape st))) in
+      (List.map (fun i -> match m.m_get st i with Some v -> string_of_z v | None -> none) (lex_enum (m.m_shape st)))
+      (m.m_raw st) in
   let fill st base =
     if m.m_shape st = [] then st else
     snd (List.fold_left (fun (c, s) i -> (c + 1, m.m_write s i (zi (base + c)))) (0, st) (lex_enum (m.m_shape st))) in
   let st = ref (m.m_init ()) in
   let out = ref [dump "-" !st] in
+  let step = ref 0 in
   List.iter (fun o ->
+    incr step;
     let flag = (match o.[0] with
-      | 'r' -> let (f, s) = m.m_resize !st (op_list o) in st := s; f
+      | 'r' -> let (f, s) = m.m_resize !st (op_list o) in
+               st := (if f = "T" then fill s (1000 * !step) else s); f
       | 'w' -> let (kk, v) = op_write o in
                (if m.m_shape !st <> [] then match nth_index (m.m_shape !st) kk with Some i -> st := m.m_write !st i v | None -> ()); "-"
       | 'c' -> "-"
@@ -193,55 +248,73 @@ let legacy_run ?(none="oob") (m : 'st mops) ops =
                let o1 = (if String.length o > 1 then snd (m.m_resize o0 (op_list o)) else o0) in
                st := fill o1 100; "-"
       | 'g' -> st := fill !st 200; "-"
+      | 'n' -> (* converting constructor: a new object with the shape and the values of the source *)
+               let o1 = snd (m.m_resize (m.m_init ()) (op_list o)) in
+               st := fill o1 300; "-"
       | _ -> failwith "op") in
     out := dump flag !st :: !out) ops;
-  String.concat " ; " (List.rev !out)
+  (String.concat " ; " (List.rev !out), !st)
+let legacy_run ?(none="oob") m ops = fst (legacy_run_state ~none m ops)
 
 let hybrid_ops mx dm : coq_Z hstate mops =
   { m_init = (fun () -> h_init Z0 (ni mx) (ni dm)); m_shape = (fun s -> s.h_shape); m_strides = (fun s -> s.h_strides);
     m_count = (fun _ -> "-"); m_get = h_get; m_write = h_write;
+    m_raw = (fun s -> let n = int_of_z (prod s.h_shape) in
+               Some (List.map string_of_z (List.filteri (fun i _ -> i < n) s.h_buf)));
     m_resize = (fun s z -> let (f, s') = h_resize s z in ((if f then "T" else "F"), s')) }
 let dynamic_ops : coq_Z dstate mops =
   { m_init = (fun () -> d_init Z0); m_shape = (fun s -> s.d_shape); m_strides = (fun s -> s.d_strides);
     m_count = (fun s -> string_of_int (List.length s.d_data)); m_get = d_get; m_write = d_write;
+    m_raw = (fun s -> Some (List.map string_of_z s.d_data));
     m_resize = (fun s z -> ("T", d_resize Z0 s z)) }
 let generic_ops k : coq_Z state mops =
   { m_init = (fun () -> init Z0 k RowMajor); m_shape = (fun s -> s.st_shape); m_strides = (fun s -> s.st_strides);
-    m_count = (fun s -> string_of_int (List.length s.st_data)); m_get = get; m_write = write;
+    m_count = (fun s -> string_of_int (List.length s.st_data)); m_get = get; m_write = write; m_raw = (fun _ -> None);
     m_resize = (fun s z -> let (f, s') = resize Z0 s z in ((if f then "T" else "F"), s')) }
 (* the reference: abstract array of the corresponding kind *)
-let spec_ops k shape0 count : coq_Z astate mops =
+let spec_ops ?(raw=true) k shape0 count : coq_Z astate mops =
   { m_init = (fun () -> { a_kind = k; a_layout = RowMajor; a_shape = shape0; a_cells = [] });
     m_shape = (fun s -> s.a_shape); m_strides = (fun s -> spec_strides RowMajor s.a_shape);
     m_count = (fun s -> if count then string_of_z (prod s.a_shape) else "-");
     m_get = a_get; m_write = a_write;
+    m_raw = (fun s -> if raw then Some (s_raw s) else None);
     m_resize = (fun s z -> let (f, s') = a_resize s z in ((if f then "T" else "F"), s')) }
 (* cells the property does not fix print as '?' *)
 let spec_run m ops = legacy_run ~none:"?" m ops
 
-let () =
-  register "lhist" (fun a -> match a with
+let legacy_case cast_after a = match a with
     | kd :: rest ->
         let ks = getS kd in
-        let ops = (match rest with [o] -> parse_ops (getS o) | _ -> []) in
+        let ops = (match rest with o :: _ -> parse_ops (getS o) | _ -> []) in
         let starts p = String.length ks >= String.length p && String.sub ks 0 (String.length p) = p in
         let tail p = String.sub ks (String.length p) (String.length ks - String.length p) in
+        let go : 'm 's. 'm mops -> 's mops -> res = fun mm sm ->
+          let (mo, mst) = legacy_run_state mm ops and (so, sst) = legacy_run_state ~none:"?" sm ops in
+          if not cast_after then { model = mo; spec = so; dom = true }
+          else begin
+            let elems none m st = List.map (fun i -> match m.m_get st i with Some v -> string_of_z v | None -> none) (lex_enum (m.m_shape st)) in
+            let tag = (match rest with [_; t] -> getS t | _ -> "") in
+            if outside_clip tag (starts "fixed") (sm.m_shape sst)
+            then { model = show_cast (mm.m_shape mst) (elems "oob" mm mst); spec = "unspecified"; dom = false }
+            else { model = show_cast (mm.m_shape mst) (elems "oob" mm mst); spec = show_cast (sm.m_shape sst) (elems "?" sm sst); dom = true }
+          end in
         if starts "hybrid" then begin
           match List.map int_of_string (String.split_on_char 'x' (tail "hybrid")) with
           | [mx; dm] ->
               let k = { sk = SFixedDim (ni dm); bk = BBounded (ni mx) } in
-              { model = legacy_run (hybrid_ops mx dm) ops;
-                spec = spec_run (spec_ops k (zi mx :: List.init (dm - 1) (fun _ -> zi 1)) false) ops; dom = true }
+              go (hybrid_ops mx dm) (spec_ops k (zi mx :: List.init (dm - 1) (fun _ -> zi 1)) false)
           | _ -> failwith "hybrid"
         end else if starts "fixed" then begin
           let c = ints_x (tail "fixed") in
           let k = { sk = SConstant c; bk = BFixed (ni (int_of_z (prod c))) } in
-          { model = legacy_run (generic_ops k) ops; spec = spec_run (spec_ops k c true) ops; dom = true }
-        end else if ks = "dynamic" then begin
-          let k = { sk = SDynamic; bk = BDynamic } in
-          { model = legacy_run dynamic_ops ops; spec = spec_run (spec_ops k [] true) ops; dom = true }
-        end else failwith "legacy class"
-    | _ -> failwith "lhist")
+          go (generic_ops k) (spec_ops ~raw:false k c true)
+        end else if ks = "dynamic" then
+          go dynamic_ops (spec_ops { sk = SDynamic; bk = BDynamic } [] true)
+        else failwith "legacy class"
+    | _ -> failwith "lhist"
+let () =
+  register "lhist" (legacy_case false);
+  register "lhistcast" (legacy_case true)
 
 (* ---------- casts: values are carried in quarters (v4 = 4*value) so that 7k-4.25 is exact ---------- *)
 let quarters_str v4 =
